@@ -231,6 +231,8 @@ def oracle_e2e(ctx: Ctx, case, m, span, out, info):
     vs = 1.0
     if case["rescale"]:
         vs = B.quad() / mall
+        if not vs > 1e-12:
+            ctx.count("e2e:zero_variance_scale_skipped"); return      # the data are fitted exactly: log(var_scale) is not defined
         if not oclose([info["var_scale"]], [vs]):
             fail(ctx, "e2e-var-scale", cw, f"impl={info['var_scale']} q/N={vs}")
         want = B.nll(mall, scale=vs)
